@@ -738,6 +738,79 @@ def stage_server_configs(ctx, w):
 # --------------------------------------------------------------------------------------------
 # stage: first pass + final pass through the public options object (connection.py _connect)
 
+class _Stop(Exception):
+    pass
+
+
+class _RecTunnel:
+    """public tunnel= hook of asyncssh.connect(): records the (host, port) the connection is finally made to; the
+    connection object built by the session factory gives the options in force (private attribute, optional)"""
+
+    def __init__(self):
+        self.target = None
+        self.result = None
+        self.username = None
+
+    async def create_connection(self, session_factory, host, port):
+        self.target = (host, port)
+        try:
+            conn = session_factory()
+            o = getattr(conn, '_options', None)
+            cfg = getattr(o, 'config', None)
+            if cfg is not None:
+                self.result = ('ok', observe(cfg, True), bool(cfg.has_match_final()))
+                self.username = getattr(o, 'username', None)
+        except Exception:  # noqa
+            self.result = None
+        raise _Stop()
+
+
+def connect_resolve(paths, host, user=(), port=()):
+    """Resolve a target the way asyncssh.connect() does (first pass, canonicalisation, final pass in _connect).
+    Returns dict(target=(host, port) | None, result=('ok', options, has_final) | ('err', class) | None, username)."""
+    import asyncio
+    import asyncssh
+    t = _RecTunnel()
+    kw = {}
+    if user != ():
+        kw['username'] = user
+    if port != ():
+        kw['port'] = port
+
+    async def go():
+        try:
+            await asyncssh.connect(host, config=list(paths), tunnel=t, known_hosts=None, client_keys=None, **kw)
+        except _Stop:
+            return None
+        except Exception as e:  # noqa
+            return ('err', classify(e))
+        return ('err', 'ECrash')
+    err = asyncio.run(go())
+    if err is not None and t.target is None:
+        return {'target': None, 'result': err, 'username': None}
+    return {'target': t.target, 'result': t.result, 'username': t.username}
+
+
+def alias_program(rng, w, host, fallback_user=False):
+    """the shape on which the target of the final pass matters: a block keyed on the name the caller gave rewrites
+    Hostname and sets options; "Match final" makes the second pass happen; "Host *" holds fallbacks"""
+    d, rel = w.case_dir()
+    real = rng.choice(['real.example.com', '10.9.9.9', 'box.internal'])
+    lines = [spell(rng, 'Host') + ' ' + host, '  Hostname ' + real, '  Port %d' % rng.choice([4321, 2200, 7])]
+    if rng.random() < 0.5:
+        lines.append('  SendEnv ALIAS')
+    if rng.random() < 0.5:
+        lines += ['Match originalhost ' + host, '  BindAddress 10.1.1.1']
+    lines += [rng.choice(['Match final', 'Match final all', 'Match final host ' + real]), '  User alice']
+    lines += ['Host *', '  Port 99', '  Compression yes']
+    if fallback_user:
+        lines.append('  Tag fallback')
+    p = os.path.join(d, 'main0')
+    text = '\n'.join(lines) + '\n'
+    w.write(p, text)
+    return {'main': [p], 'files': {p: text}, 'dirs': [], 'dir': d}
+
+
 TWO_PASS_OPTS = ['User', 'Port', 'Hostname', 'Compression', 'SendEnv', 'Tag', 'TCPKeepAlive', 'BindAddress']
 
 
@@ -787,46 +860,62 @@ def stage_two_pass(ctx, w):
     except Exception:  # noqa
         ctx.cov['correspondence']['two_pass'] = {'unavailable': 'no local user name'}
         return
-    cases, keep = [], []
-    second = 0
+    cases, keep, tcases = [], [], []
+    second = private_missing = 0
     for i in range(n):
-        prog = restricted_program(rng, w, TWO_PASS_OPTS, rng.randint(2, 9), values=TWO_PASS_VALUES)
-        # make "Match final" frequent
-        if rng.random() < 0.6:
-            t = prog['files'][prog['main'][0]]
-            t += rng.choice(['Match final\n', 'Match final host *\n', 'Match !final\n', 'match FINAL all\n']) + \
-                rng.choice(['Port 4444\n', 'Compression yes\n', 'SendEnv FIN\n', 'User fin\n'])
-            prog['files'][prog['main'][0]] = t
-            w.write(prog['main'][0], t)
         host = rng.choice(HOSTS)
+        if i % 4 == 3:
+            prog = alias_program(rng, w, host, fallback_user=True)
+        else:
+            prog = restricted_program(rng, w, TWO_PASS_OPTS, rng.randint(2, 9), values=TWO_PASS_VALUES)
+            # make "Match final" frequent
+            if rng.random() < 0.6:
+                t = prog['files'][prog['main'][0]]
+                t += rng.choice(['Match final\n', 'Match final host *\n', 'Match !final\n', 'match FINAL all\n']) + \
+                    rng.choice(['Port 4444\n', 'Compression yes\n', 'SendEnv FIN\n', 'User fin\n'])
+                prog['files'][prog['main'][0]] = t
+                w.write(prog['main'][0], t)
         user = rng.choice([(), (), 'alice'])
         port = rng.choice([(), (), 2222])
-        try:
-            kw = {}
-            if user != ():
-                kw['username'] = user
-            if port != ():
-                kw['port'] = port
-            o = asyncssh.SSHClientConnectionOptions(host=host, config=prog['main'], **kw)
-            cfg = getattr(o, 'config', None)
-            if cfg is None:
-                ctx.cov['correspondence']['two_pass'] = {'unavailable': 'options.config is gone'}
-                return
-            if cfg.has_match_final():
-                second += 1
-                o.update(host=host, reload=True, canonical=False, final=True)
+        cr = connect_resolve(prog['main'], host, user, port)
+        res = cr['result']
+        if res is None:
+            # the options of the connection are not reachable any more: fall back to the options object
+            private_missing += 1
+            try:
+                kw = {}
+                if user != ():
+                    kw['username'] = user
+                if port != ():
+                    kw['port'] = port
+                o = asyncssh.SSHClientConnectionOptions(host=host, config=prog['main'], **kw)
                 cfg = o.config
-            res = ('ok', observe(cfg, True), bool(cfg.has_match_final()))
-        except Exception as e:  # noqa
-            res = ('err', classify(e))
+                if cfg.has_match_final():
+                    o.update(host=host, reload=True, canonical=False, final=True)
+                    cfg = o.config
+                res = ('ok', observe(cfg, True), bool(cfg.has_match_final()))
+            except Exception as e:  # noqa
+                res = ('err', classify(e))
+        second += bool(res[0] == 'ok' and res[2])
         fs = w.listing([prog['dir']])
         E = cenv(True, False, False, luser, host, '', '', '', '', lhost, w.home, uid, w.environ(), fs)
         cases.append('(%s, [], %s, %s, %s, %s)' % (E, copt(None if user == () else user, zs),
                                                    copt(None if port == () else port, cz),
                                                    clist(prog['main'], zs), cresult(res)))
         keep.append((prog, host, user, port, res))
+        tcases.append('(%s, %s, %s, %s, %s)' % (E, copt(None if user == () else user, zs), copt(None if port == () else port, cz),
+                                                clist(prog['main'], zs),
+                                                copt(cr['target'], lambda hp: '(%s, %s)' % (zs(hp[0]), cz(hp[1])))))
         ctx.note_case(('two_pass', prog['files'][prog['main'][0]], host, user, port), nontrivial=res[0] == 'ok')
     ctx.count('two_pass.second_pass_taken', second)
+    if private_missing:
+        ctx.cov['correspondence']['two_pass_options_via_connect'] = {'unavailable_cases': private_missing}
+    bad = ctx.coq_cases('connect_target', IMPORTS, 'chk_connect_target', tcases,
+                        ty='env * option str * option Z * list str * option (str * Z)', shard=60)
+    if bad:
+        prog, host, user, port, res = keep[bad[0]]
+        ctx.broke('correspondence:connect_target', f'{len(bad)} of {len(tcases)} differ; first: host={host!r} user={user!r} '
+                  f'port={port!r} files={prog["files"]!r}')
     bad = ctx.coq_cases('two_pass', IMPORTS, 'chk_two_pass', cases,
                         ty='env * opts * option str * option Z * list str * res (opts * bool)', shard=60)
     if bad:
@@ -1212,6 +1301,53 @@ def stage_final_registered(ctx, w):
                        {'kind': 'final_registered', 'class': 'final_not_registered', 'text': text, 'host': 'web'})
 
 
+def stage_connect_target(ctx, w):
+    """what asyncssh.connect() finally targets (host, port handed to the transport; user name and options in force)
+    for an alias block + "Match final" program, against what ssh -G resolves for the same file.  The programs are
+    built so that the known final-pass differences (C18-4/5) do not touch the compared options."""
+    if not os.access(SSH, os.X_OK):
+        ctx.cov['oracle']['connect_target'] = 'unavailable (no ssh)'
+        return
+    rng = ctx.rng
+    n = 120 if ctx.tier == 'thorough' else 24
+    agree = 0
+    for i in range(n):
+        host = rng.choice(SSH_HOSTS)
+        prog = alias_program(rng, w, host)
+        main = prog['main'][0]
+        out, err = ssh_G(main, host, (), ())
+        if out is None:
+            ctx.broke('harness:connect_target', 'ssh rejects an alias program: ' + err)
+            return
+        cr = connect_resolve([main], host)
+        ctx.note_case(('connect_target', prog['files'][main], host), nontrivial=True)
+        want = (out.get('hostname', ['?'])[0], int(out.get('port', ['0'])[0]))
+        problems = []
+        if cr['target'] != want:
+            problems.append(f'connects to {cr["target"]!r}, ssh to {want!r}')
+        if cr['username'] is not None and cr['username'] != out.get('user', ['?'])[0]:
+            problems.append(f'user {cr["username"]!r}, ssh {out.get("user")!r}')
+        if cr['result'] is not None and cr['result'][0] == 'ok':
+            for name, key in (('SendEnv', 'sendenv'), ('BindAddress', 'bindaddress')):
+                mine = cr['result'][1].get(name)
+                theirs = out.get(key, [])
+                mine = [] if mine is None else (dedupe(mine) if isinstance(mine, list) else [mine])
+                if mine != dedupe(theirs):
+                    problems.append(f'{name} {mine!r}, ssh {theirs!r}')
+        if not problems:
+            agree += 1
+            continue
+        ctx.count('connect_target_differs', group='oracle')
+        report(ctx, 'connect_target',
+               f'asyncssh.connect({host!r}, config=...) after the final pass: ' + '; '.join(problems) +
+               f'; config {prog["files"][main]!r}',
+               {'kind': 'connect_target', 'class': 'connect_target', 'text': prog['files'][main], 'host': host,
+                'problems': problems})
+    ctx.count('connect_target.agree', agree)
+    if agree + ctx.cov['oracle'].get('connect_target_differs', 0) < n:
+        ctx.broke('vacuity:connect_target', 'not every alias program was compared')
+
+
 def stage_purity_oracle(ctx, w):
     """loading a config on top of another one (last_config) must not change the earlier one, and loading it twice must
     give the same answer"""
@@ -1551,6 +1687,12 @@ def resolve_like(w, main, host, user, port, luser, mode, prog=None):
     ssh does instead: the second pass is applied on top of the first pass' options (the host name being fixed by
     then and Host lines being matched against it), with "canonical" false / true.
     Returns (result, second pass taken)."""
+    if mode == 'connect':
+        # the code path asyncssh.connect() really takes; None when the options of the connection are not reachable
+        r = connect_resolve([main], host, user, port)['result']
+        if r is not None:
+            return r, bool(r[0] == 'ok' and r[2])
+        mode = 'actual'
     r1, c1 = load_client([main], host, user, port, False, False, local_user=luser)
     if r1[0] != 'ok' or not r1[2]:
         return r1, False
@@ -1603,7 +1745,11 @@ def attribute_ssh_difference(w, prog, host, user, port, luser, out, base):
     main = prog['main'][0]
     text = '\n'.join(prog['files'].values()).lower()
     tries = []
-    if 'final' in text:
+    # the known final-pass findings are about ONE behaviour: the second pass is the first one done again from scratch
+    # for the original name with final=True.  Only if connect() did exactly that can they account for a difference.
+    as_known = resolve_like(w, main, host, user, port, luser, 'actual')[0]
+    via_connect = resolve_like(w, main, host, user, port, luser, 'connect')[0]
+    if 'final' in text and canon_result(as_known) == canon_result(via_connect):
         tries.append(('final_pass_restart', main, 'on_top'))
         if 'canonical' in text:
             tries.append(('canonical_final', main, 'on_top_canonical'))
@@ -1645,7 +1791,7 @@ def stage_ssh_oracle(ctx, w):
             if rejected <= 2:
                 ctx.sample({'ssh_rejected': {'config': prog['files'][main], 'stderr': err}}, limit=9)
             continue
-        r1, two = resolve_like(w, main, host, user, port, luser, 'actual')
+        r1, two = resolve_like(w, main, host, user, port, luser, 'connect')
         ctx.note_case(('ssh_G', tuple(sorted(prog['files'].values())), host, user, port), nontrivial=True)
         diffs = ssh_diffs(r1, out, base, two)
         if not diffs:
@@ -1693,7 +1839,7 @@ def run(ctx):
     try:
         client_keep = []
         for st in (stage_tables, stage_units, stage_client_configs, stage_server_configs, stage_two_pass, stage_users,
-                   stage_firstwins_oracle, stage_final_registered, stage_include_oracle, stage_purity_oracle, stage_ssh_oracle,
+                   stage_firstwins_oracle, stage_final_registered, stage_connect_target, stage_include_oracle, stage_purity_oracle, stage_ssh_oracle,
                    stage_multipath_oracle, stage_expansion_oracle):
             if st is stage_tables or st is stage_units:
                 st(ctx)
@@ -1782,6 +1928,17 @@ def replay(rp):
                 if got != v and k != 'Port':
                     return 1
             return 0
+        if kind == 'connect_target':
+            d, _ = w.case_dir()
+            q = os.path.join(d, 'cfg')
+            w.write(q, rp['text'])
+            out, err = ssh_G(q, rp['host'], (), ())
+            cr = connect_resolve([q], rp['host'])
+            want = (out.get('hostname', ['?'])[0], int(out.get('port', ['0'])[0])) if out else None
+            print('asyncssh.connect targets', cr['target'], 'user', cr['username'], '| ssh -G:', want, out.get('user') if out else err)
+            bad = out is not None and (cr['target'] != want or
+                                       (cr['username'] is not None and cr['username'] != out.get('user', ['?'])[0]))
+            return 1 if bad else 0
         if kind == 'final_registered':
             d, _ = w.case_dir()
             q = os.path.join(d, 'cfg')
@@ -1830,7 +1987,7 @@ def replay(rp):
             if out is None:
                 print('ssh rejects the file:', err)
                 return 0
-            r1, two = resolve_like(w, main, rp['host'], user, port, luser, 'actual')
+            r1, two = resolve_like(w, main, rp['host'], user, port, luser, 'connect')
             diffs = ssh_diffs(r1, out, base, two)
             for dd in diffs:
                 print('differs (option, asyncssh, ssh):', dd)
